@@ -67,13 +67,17 @@ def info_case(draw):
         else:
             o["nextseq"] = 15
     f = {}
-    k = draw(st.integers(0, 5))
+    k = draw(st.integers(0, 7))
     if k == 0:
         f["m"] = str(draw(st.sampled_from([5, 10, 100])))
     elif k == 1:
         f["discard_trimmed"] = True
     elif k == 2:
         f["discard_untrimmed"] = True
+    elif k == 3:
+        f["casava"] = True  # some generated headers carry " 1:Y:0:..."
+    elif k == 4:
+        f["max_n"] = 0
     r1, _ = draw(scen.reads(defs, [], False, fastq=draw(st.integers(0, 4)) > 0, n_max=5))
     fastq = r1[0][2] is not None
     if not fastq:
